@@ -190,3 +190,7 @@ Proof. eexists. vm_compute. repeat split. Qed.
 
 Lemma indexall_task_order_true : indexall_task_order = true.
 Proof. vm_compute. reflexivity. Qed.
+
+From Oras Require Import Model.GraphMemSrc.
+Lemma graphmem_source_shape_true : graphmem_source_shape = true.
+Proof. vm_compute. reflexivity. Qed.
